@@ -24,8 +24,8 @@ use crate::ops::poseidon1_perm::{Poseidon1CircuitPlugin, Poseidon1PermCallBase};
 use crate::ops::poseidon2_perm::{Poseidon2CircuitPlugin, Poseidon2PermCallBase};
 use crate::ops::recompose::RecomposeCircuitPlugin;
 use crate::ops::{
-    HintExecutor, NpoConfig, NpoRegistry, NpoTypeId, Poseidon1Params, Poseidon1PermCall,
-    Poseidon2Params, Poseidon2PermCall,
+    AluOpKind, HintExecutor, NpoConfig, NpoRegistry, NpoTypeId, Op, Poseidon1Params,
+    Poseidon1PermCall, Poseidon2Params, Poseidon2PermCall,
 };
 use crate::tables::TraceGeneratorFn;
 use crate::types::{ExprId, NonPrimitiveOpId, WitnessAllocator, WitnessId};
@@ -962,6 +962,48 @@ where
         Ok(circuit)
     }
 
+    /// The ALU table does not read a `HornerAcc` step's accumulator operand: the row constraint
+    /// takes the accumulator from the previous ALU row, and a run of consecutive `HornerAcc` ops
+    /// starts from zero. A step whose `acc` is anything else would be proven against a different
+    /// relation than the one the circuit states (and its honest trace would be rejected), so
+    /// such op lists are refused here.
+    fn validate_horner_chains(ops: &[Op<F>]) -> Result<(), CircuitBuilderError> {
+        let mut zero_consts: Vec<WitnessId> = Vec::new();
+        for op in ops {
+            if let Op::Const { out, val } = op
+                && *val == F::ZERO
+            {
+                zero_consts.push(*out);
+            }
+        }
+        // Output of the directly preceding ALU op, when that op is a HornerAcc step.
+        let mut prev_horner_out: Option<WitnessId> = None;
+        for op in ops {
+            if let Op::Alu {
+                kind,
+                out,
+                intermediate_out,
+                ..
+            } = op
+            {
+                if *kind == AluOpKind::HornerAcc {
+                    let chained = match (prev_horner_out, intermediate_out) {
+                        (Some(prev), Some(acc)) => *acc == prev,
+                        (None, Some(acc)) => zero_consts.contains(acc),
+                        (_, None) => false,
+                    };
+                    if !chained {
+                        return Err(CircuitBuilderError::HornerAccNotChained { out: out.0 });
+                    }
+                    prev_horner_out = Some(*out);
+                } else {
+                    prev_horner_out = None;
+                }
+            }
+        }
+        Ok(())
+    }
+
     /// Builds the circuit and returns both the circuit and the ExprId→WitnessId mapping for public inputs.
     #[allow(clippy::type_complexity)]
     pub fn build_with_public_mapping(
@@ -992,6 +1034,7 @@ where
 
         // Stage 2: IR transformations and optimizations
         let (ops, rewrite) = Optimizer::optimize_with_inputs(ops, &private_input_rows);
+        Self::validate_horner_chains(&ops)?;
 
         let resolve = |id: WitnessId| id.resolve(&rewrite);
         let expr_to_widx = expr_to_widx
